@@ -46,6 +46,7 @@ class StreamSession:
 
     __slots__ = (
         "_closed",
+        "_drained",
         "_external_config",
         "_header",
         "_input_schema",
@@ -77,6 +78,11 @@ class StreamSession:
         self._input_schema: pa.Schema | None = None
         self._output_reader: ValidatedReader | None = None
         self._closed = False
+        # True once close()/cancel() has read the output stream to its EOS marker.
+        # ``_closed`` alone only says the session may no longer be used: it is also
+        # set when a transport error, or an exception raised by ``on_log`` during
+        # the drain, ended the session with the stream still open on the wire.
+        self._drained = False
         self._external_config = external_config
         self._ipc_validation = ipc_validation
         self._shm = shm
@@ -244,26 +250,35 @@ class StreamSession:
                 self._output_reader = ValidatedReader(ipc.open_stream(self._reader_stream), self._ipc_validation)
             except (pa.ArrowInvalid, OSError, StopIteration):
                 return
-        self._drain_output()
+        self._drained = self._drain_output()
 
-    def _drain_output(self) -> None:
+    def _drain_output(self) -> bool:
         """Read the output stream to its EOS marker, delivering log batches on the way.
 
         An EXCEPTION batch is one more batch to step over, not the end of the
         stream: stopping at it would leave the EOS marker unread on the
         transport, where the next call would take it for its response.
+
+        Returns:
+            ``True`` if the EOS marker was reached, ``False`` if the drain gave
+            up first (broken transport, or more than ``_MAX_DRAIN`` batches).
+
         """
         if self._output_reader is None:
-            return
+            return False
         _MAX_DRAIN = 10_000
         on_log = self._on_log
         callback_exc: Exception | None = None
+        reached_eos = False
         for _ in range(_MAX_DRAIN):
             try:
                 skipped = _read_batch_with_log_check(self._output_reader, on_log, self._external_config, shm=self._shm)
             except RpcError:
                 continue
-            except (StopIteration, pa.ArrowInvalid, OSError):
+            except StopIteration:
+                reached_eos = True
+                break
+            except (pa.ArrowInvalid, OSError):
                 break
             except Exception as exc:
                 # The caller's on_log callback raised.  The batch it was given is
@@ -277,7 +292,9 @@ class StreamSession:
             # region it arrived in, or it stays allocated for good.
             skipped.release()
         if callback_exc is not None:
+            self._drained = reached_eos
             raise callback_exc
+        return reached_eos
 
     def cancel(self) -> None:
         """Signal the server to stop processing and discard pending work.
@@ -312,7 +329,7 @@ class StreamSession:
                 self._output_reader = ValidatedReader(ipc.open_stream(self._reader_stream), self._ipc_validation)
             except (pa.ArrowInvalid, OSError, StopIteration):
                 return
-        self._drain_output()
+        self._drained = self._drain_output()
 
     def __enter__(self) -> StreamSession:
         """Enter context manager."""
